@@ -17,7 +17,8 @@ RULE = ("histories of 1-12 queries on one DFA instance (count/words for lengths 
         "words_of_length and iteration and successors abandoned after n items, random_word with seed, cardinality, len, "
         "min/max length, isempty, isfinite, clear_cache, interleaved accepts_input / == / <= / successor(s) / predecessor(s) with default and reversed symbol order) and on one NFA "
         "instance (accepts_input, partially consumed read_input_stepwise, ==, DFA.from_nfa, eliminate_lambda); DFAs from "
-        "the C13 generators (random cyclic, acyclic finite-language, empty); distinct = distinct (canonical automaton, "
+        "the C13 generators (random cyclic, acyclic finite-language, empty); one DFA history in five is run a second time "
+        "on an instance built under allow_mutable_automata = True (plain dicts and sets kept); distinct = distinct (canonical automaton, "
         "history); non-trivial = history has >= 3 queries of which >= 2 touch a cache or a memo")
 
 CACHE_QUERIES = {"count", "words", "words_prefix", "random", "card", "len", "min", "max", "isempty", "isfinite", "iter", "clear"}
@@ -189,7 +190,26 @@ def model_answer(q, a):
     return r
 
 
-def check_dfa_history(ctx, ddef, hist, other_defs, tag):
+def check_dfa_history(ctx, ddef, hist, other_defs, tag, mutable=False):
+    """mutable: the instance under test (and every fresh copy) is built under allow_mutable_automata = True from its
+    own deep copy of the definition, so it keeps plain dicts and sets; answers must still not depend on history."""
+    if mutable:
+        import copy
+        import automata.base.config as cfg
+        plain = mk_dfa
+
+        def mk_dfa_m(x):
+            saved = cfg.allow_mutable_automata
+            cfg.allow_mutable_automata = True
+            try:
+                return plain(copy.deepcopy(x))
+            finally:
+                cfg.allow_mutable_automata = saved
+        return _check_dfa_history(ctx, ddef, hist, other_defs, tag, mk_dfa_m, "mutable")
+    return _check_dfa_history(ctx, ddef, hist, other_defs, tag, mk_dfa, "default")
+
+
+def _check_dfa_history(ctx, ddef, hist, other_defs, tag, mk_dfa, mode):
     d = mk_dfa(ddef)
     others = [mk_dfa(o) for o in other_defs]
     st = enc.Renum(enc.dfa_names(d))
@@ -249,12 +269,13 @@ def check_dfa_history(ctx, ddef, hist, other_defs, tag):
     if any(q[0] == "clear" for q in hist[:-1]):
         ctx.tally("clear_in_the_middle")
     ctx.tally("hist_len_%02d" % len(hist))
-    ctx.case((enc.tree(wire), repr(hist)), nontrivial=len(hist) >= 3 and touching >= 2,
-             sample={"dfa": repr(ddef), "history": hist})
+    ctx.tally("mode_" + mode)
+    ctx.case((enc.tree(wire), repr(hist), mode), nontrivial=len(hist) >= 3 and touching >= 2,
+             sample={"dfa": repr(ddef), "history": hist, "mode": mode})
     if problems:
-        ctx.violation("answers depend on the call history / disagree with the cache model: " + "; ".join(problems)[:1500],
+        ctx.violation(f"answers ({mode} mode) depend on the call history / disagree with the cache model: " + "; ".join(problems)[:1500],
                       {"kind": "dfa_history", "def": repr(ddef), "history": hist, "others": [repr(o) for o in other_defs],
-                       "problems": problems, "tag": tag}, confirmed=confirmed)
+                       "problems": problems, "tag": tag, "mode": mode}, confirmed=confirmed)
 
 
 # ---------------------------------------------------------------- NFA histories (fresh-copy comparison)
@@ -378,7 +399,10 @@ def run(ctx):
         other_defs = [gen.rand_dfa_def(rng, nmax=4, alphabet=sigma), ddef]
         prof = dfa_profile(ddef)
         ctx.tally("lang_empty" if prof["empty"] else ("lang_finite" if prof["finite"] else "lang_infinite"))
-        check_dfa_history(ctx, ddef, rand_history(rng, prof, other_defs), other_defs, tag)
+        hist = rand_history(rng, prof, other_defs)
+        check_dfa_history(ctx, ddef, hist, other_defs, tag)
+        if i % 5 == 4:
+            check_dfa_history(ctx, ddef, hist, other_defs, tag, mutable=True)
     for i in range(ctx.n(300, 3000)):
         ndef = gen.rand_nfa_def(rng)
         sigma = "".join(sorted(ndef["input_symbols"]))
@@ -389,7 +413,8 @@ def run(ctx):
 def replay(ctx, case):
     others = [load_def(o) for o in case.get("others", [])]
     if case["kind"] == "dfa_history":
-        check_dfa_history(ctx, load_def(case["def"]), case["history"], others, "replay")
+        check_dfa_history(ctx, load_def(case["def"]), case["history"], others, "replay",
+                          mutable=case.get("mode") == "mutable")
     else:
         check_nfa_history(ctx, load_def(case["def"]), case["history"], others, "replay")
     print("replay:", "VIOLATION reproduced" if ctx.violations else "no disagreement")
